@@ -254,6 +254,9 @@ func c10(e *Env) {
 			// "X when undefined": a metric the vector does not write is spelled X only if the constructor starts it
 			// as Not Defined
 			e.constructorDefaults(l, "constructor-default")
+			// "decoding the encoding yields an object with the same fields": Encode prints field N under name N
+			// (encode-emission) and the decoder stores the token named N in field N (wiring)
+			e.armRules(l, e.modelDecodeOne(l, "decode-one"))
 		}
 		e.namesReaders(v, ls)
 		// what Encode prints must still be what the decoder stored: no other writer of the fields
@@ -262,7 +265,7 @@ func c10(e *Env) {
 	e.versionTables()
 	c.Floor("canonical-order", 3)
 	c.Floor("write-ownership", 36)
-	e.keepRules("write-ownership", "names-readers", "encode-order", "encode-emission", "encode-guard", "encode-emissions", "encode-error", "encode-nil", "string-is-encode", "code-table", "parse", "canonical-order", "version-table", "constructor-default")
+	e.keepRules("write-ownership", "names-readers", "encode-order", "encode-emission", "encode-guard", "encode-emissions", "encode-error", "encode-nil", "string-is-encode", "code-table", "parse", "canonical-order", "version-table", "constructor-default", "wiring", "arm-parser")
 	c.Floor("encode-order", 6)
 	c.Floor("encode-emission", 36)
 	c.Floor("encode-guard", 36)
